@@ -4,6 +4,8 @@ CONSTANTS Family
 
 Num == <<IntL(0), IntL(1), IntL(2), IntL(3), IntL(7), FloatL(5, 2), FloatL(1, 2)>>
 NumR == <<IntL(2), IntL(3), FloatL(1, 2)>>                       \* reduced alphabet for the deep families
+PowBase == <<IntL(0), IntL(1), IntL(4), IntL(9), IntL(16), FloatL(9, 4), FloatL(1, 4), IntL(2), FloatL(4, 1), Neg(IntL(4))>>
+PowExp == <<FloatL(1, 2), FloatL(3, 2), Neg(FloatL(1, 2)), IntL(0), FloatL(0, 1), IntL(2), FloatL(2, 1), IntL(1), Bin("/", IntL(1), FloatL(2, 1)), Bin("-", FloatL(3, 2), IntL(1))>>
 Str == <<StrL("a"), StrL("b"), StrL("")>>
 Bool == <<BoolL(TRUE), BoolL(FALSE)>>
 Lists == << ListV("l3", <<Val("int", 3, 1, ""), Val("int", 1, 1, ""), Val("int", 2, 1, "")>>),
@@ -57,6 +59,12 @@ Init ==
                        [] sh = 5 -> Bin("in", Str[a], Lists[l])
                        [] sh = 6 -> Bin("+", Bin("+", Num[n], Num[n]), Str[a])
                        [] sh = 7 -> Bin("+", Str[a], Bin("*", Num[n], Num[n])))
+       [] Family = "pow" -> (      \* powers with fractional, zero, negative and float exponents, alone and in a chain
+            \E a \in 1..Len(PowBase), e \in 1..Len(PowExp), sh \in 0..3 :
+              tree = CASE sh = 0 -> Bin("^", PowBase[a], PowExp[e])
+                       [] sh = 1 -> Bin("==", Bin("^", PowBase[a], PowExp[e]), FloatL(2, 1))
+                       [] sh = 2 -> Bin("*", IntL(2), Bin("^", PowBase[a], PowExp[e]))
+                       [] sh = 3 -> Bin("^", PowBase[a], Bin("-", PowExp[e], IntL(0))))
        [] Family = "n3" -> (       \* depth 3 over the reduced alphabet: op3(op2(X, Y), Z) and op3(Z, op2(X, Y)), X, Y depth <= 1, Z leaf or negated leaf
             \E o3 \in 1..Len(AOps), o2 \in 1..Len(AOps), o1 \in 1..Len(AOps), i1 \in 1..3, j1 \in 1..3, u1 \in 0..2,
                o4 \in 1..Len(AOps), i4 \in 1..3, j4 \in 1..3, u4 \in 0..2, z \in 1..3, uz \in 0..1, sw \in BOOLEAN :
